@@ -37,6 +37,8 @@ class RecS3(S3ChunkStore):
 
 class _Handler(http.server.BaseHTTPRequestHandler):
     protocol_version = 'HTTP/1.1'
+    wbufsize = 1 << 16          # headers and body leave in one segment (no Nagle / delayed-ACK stall per GET)
+    disable_nagle_algorithm = True
 
     def log_message(self, *a):
         pass
